@@ -236,6 +236,12 @@ func (ex *Exec) load(st *State, lv *LValue) Val {
 		// a load made while evaluating a specification: the loaded value is as
 		// well-formed as one loaded by the code (ground terms only; nothing is
 		// assumed about terms under a binder)
+		for i := 0; i < nav.n; i++ {
+			l := stripDims(rootLeaves[nav.lo+i], len(nav.idxs))
+			if len(l.Dims) == 0 {
+				ex.sc.assert(scalarRange(l, out.L[i]))
+			}
+		}
 		ex.assumeWF(st, out)
 	}
 	return out
